@@ -13,6 +13,7 @@ CONSTANTS
   FnKinds <- FnKindsDef
   FnArgs <- FnArgsQ
   FnRets <- FnRetsQ
+  VtItems <- VtItemsQ
   Extras <- ExtrasQ
   SimpAtoms <- SimpAtomsQ
 INVARIANT CoreOut
